@@ -2,6 +2,7 @@ package main
 
 import (
 	"fmt"
+	"go/token"
 	"os"
 	"sort"
 	"strings"
@@ -392,4 +393,43 @@ func elemOfField(v ssa.Value, field string) bool {
 		}
 	}
 	return false
+}
+
+// c11PeersFrozen: the connection accounting of the proxy pairs "+1 on every peer of the upstream" when a connection
+// starts with "-1 on every peer of the upstream" when it ends, reading the upstream's peer list both times. The pairing
+// holds only if the list is the same at both moments: Upstream.peers is assigned while the upstream is provisioned and
+// never afterwards (a configuration that is unloaded while a connection is open must not take the list away under it).
+func c11PeersFrozen(c *Ctx, r *Report, rule string) {
+	r.rule(rule, "Upstream.peers, read by the +1/-1 connection accounting at the start and at the end of a proxied connection, is assigned only while the upstream is provisioned (set-up code), never by Cleanup or per-connection code", 1)
+	n := 0
+	for _, fn := range c.Funcs {
+		for _, st := range storesToField(fn, "modules/l4proxy.Upstream", "peers") {
+			n++
+			ok := false
+			for f := fn; f != nil; f = f.Parent() {
+				switch f.Name() {
+				case "provision", "Provision", "UnmarshalJSON":
+					ok = true
+				}
+			}
+			if !ok && fn.Parent() == nil && !token.IsExported(fn.Name()) {
+				// a helper all of whose callers are provisioning code
+				if sites, escapes := c.callSitesOf(fn); !escapes && len(sites) > 0 {
+					ok = true
+					for _, cs := range sites {
+						switch cs.Parent().Name() {
+						case "provision", "Provision":
+						default:
+							ok = false
+						}
+					}
+				}
+			}
+			r.check(ok, rule, fname(fn), "store Upstream.peers", c.ipos(st), "assigned while provisioning",
+				"Upstream.peers is assigned in "+fname(fn)+": a connection that is open at that moment counted +1 on the old peers and will count -1 on the new list (or on none) when it ends - the peers keep a connection that is gone, and an upstream with max_connections stays full for ever")
+		}
+	}
+	if n == 0 {
+		r.bad(rule, "modules/l4proxy.Upstream", "store Upstream.peers", "-", "no assignment of Upstream.peers found")
+	}
 }
